@@ -1,17 +1,15 @@
 #![no_main]
 //! C06 through libFuzzer: the first byte selects one of the 14 public decoders, the rest is the
 //! input. The semantic oracle (no panic, fuel, allocation bound, canonical re-decode) is
-//! `cfdp_verif::props::c06::judge`; a failure aborts with its key so that the harness can replay it.
+//! `cfdp_verif::props::c06::judge`; a failure aborts so that the harness can replay the input.
+use cfdp_verif::props::c06::{fuzz_case, judge};
 use libfuzzer_sys::fuzz_target;
-use cfdp_verif::props::c06::{judge, TARGETS};
 
 fuzz_target!(|data: &[u8]| {
-    if data.is_empty() {
-        return;
-    }
-    let target = TARGETS[data[0] as usize % TARGETS.len()];
-    if let Err((key, msg)) = judge(target, &data[1..]) {
-        eprintln!("C06-FUZZ-FAIL key={key} target={target}: {msg}");
-        std::process::abort();
+    if let Some(case) = fuzz_case(data) {
+        if let Err((key, msg)) = judge(&case.target, &case.bytes) {
+            eprintln!("C06-FUZZ-FAIL key={key}: {msg}");
+            std::process::abort();
+        }
     }
 });
